@@ -2,6 +2,7 @@ package vs
 
 import (
 	"fmt"
+	"runtime"
 	"runtime/debug"
 	"sort"
 	"strings"
@@ -46,6 +47,11 @@ type Config struct {
 	Race     bool
 	Deadline time.Time
 	NoSpin   bool
+	// FreeForced makes the choice of the next thread free (no deviation) when
+	// the running thread blocked or ended (pure preemption bounding). Default:
+	// every departure from the fair round-robin default costs one deviation
+	// (delay bounding), which keeps bound k small enough to finish.
+	FreeForced bool
 }
 
 // Failure is one violating execution.
@@ -95,8 +101,12 @@ func Explore(cfg Config, sc Scenario) Stats {
 	}
 	st := Stats{Instance: cfg.Name, Outcomes: map[string]int{}, BoundCompleted: -1, Exhaustive: true}
 	e := &explorer{cfg: cfg, sc: sc, st: &st, states: map[uint64]struct{}{}, traces: map[uint64]struct{}{}, failSeen: map[string]bool{}}
-	old := debug.SetGCPercent(-1)
-	defer debug.SetGCPercent(old)
+	if cfg.Race {
+		// addresses identify memory in the race oracle: no collection (hence no
+		// reuse) during an execution; collect explicitly between executions.
+		old := debug.SetGCPercent(-1)
+		defer debug.SetGCPercent(old)
+	}
 	for b := 0; b <= cfg.Bound; b++ {
 		e.bound = b
 		e.explore(nil, 0)
@@ -207,7 +217,7 @@ func (e *explorer) run(prefix []int, trace bool) (*Exec, *End, string, string) {
 func (e *explorer) run2(prefix []int, trace, noSpin bool) (*Exec, *End, string, string) {
 	body, check := e.sc()
 	x := &Exec{prefix: prefix, horizon: e.cfg.Horizon, end: make(chan struct{}, 1), ack: make(chan struct{}),
-		raceOn: e.cfg.Race, raceSeen: map[string]bool{}, tracing: trace, spinOff: noSpin,
+		raceOn: e.cfg.Race, raceSeen: map[string]bool{}, tracing: trace, spinOff: noSpin, freeForced: e.cfg.FreeForced,
 		now: time.Unix(1_700_000_000, 0)}
 	if x.raceOn {
 		x.shadow = map[uintptr]*shadow{}
@@ -251,10 +261,11 @@ func (e *explorer) run2(prefix []int, trace, noSpin bool) (*Exec, *End, string, 
 	end.Panics = x.panics
 	end.Races = x.races
 	tag, detail := check(end)
-	gcCounter++
-	if gcCounter%256 == 0 {
-		debug.SetGCPercent(100)
-		debug.SetGCPercent(-1)
+	if e.cfg.Race {
+		gcCounter++
+		if gcCounter%256 == 0 {
+			runtime.GC()
+		}
 	}
 	return x, end, tag, detail
 }
